@@ -176,6 +176,12 @@ func (fx *effects) of(fn *ssa.Function) *WriteSet {
 		for _, g := range fc.Ghosts {
 			w.Fams["ghost:"+g.Map] = I64
 		}
+		// a ghost map named in the modifies clause (e.g. the descriptor table written by close(2))
+		for _, m := range fc.Modifies {
+			if m.Kind == SIdent && fx.C.GhostMaps[m.Name] {
+				w.Fams["ghost:"+m.Name] = I64
+			}
+		}
 	}
 	if fn.Blocks == nil {
 		w.add(fx.external(fn, nil))
@@ -296,6 +302,13 @@ func (fx *effects) external(fn *ssa.Function, c *ssa.CallCommon) *WriteSet {
 	key := funcKey(fn)
 	if fc := fx.C.Funcs[key]; fc != nil && fc.HasModifies && len(fc.Modifies) == 0 {
 		return w
+	}
+	if fc := fx.C.Funcs[key]; fc != nil {
+		for _, m := range fc.Modifies {
+			if m.Kind == SIdent && fx.C.GhostMaps[m.Name] {
+				w.Fams["ghost:"+m.Name] = I64
+			}
+		}
 	}
 	benign := isBenignExternal(key)
 	params := fn.Signature.Params()
